@@ -99,6 +99,11 @@ where
         self.resolve_temp_ids = value;
     }
 
+    /// Registers the ID of an item that was inserted before its ID was known
+    pub(crate) fn register(&mut self, id: String, handle: HandleType) {
+        self.data.insert(id, handle);
+    }
+
     pub fn len(&self) -> usize {
         self.data.len()
     }
